@@ -86,6 +86,7 @@ fn journal_op(line: &str) {
 pub fn op_kind(op: &Op) -> String {
     match op {
         Op::Init { .. } => "init".into(),
+        Op::Conc { .. } => "conc".into(),
         Op::Restart => "restart".into(),
         Op::Start => "start".into(),
         Op::Success => "success".into(),
@@ -133,10 +134,31 @@ pub fn run_history(
         if let Op::Update { resp: Some(Resp { patch: Some(o), .. }), .. } | Op::Check { resp: Some(Resp { patch: Some(o), .. }), .. } = &op {
             if let Some(s) = &o.sig { sigs.insert(s.clone()); }
         }
+        if let Op::Conc { upd, bops, .. } = &op {
+            for x in std::iter::once(upd.as_ref()).chain(bops.iter()) {
+                if let Op::Update { resp: Some(Resp { patch: Some(o), .. }), .. } | Op::Check { resp: Some(Resp { patch: Some(o), .. }), .. } = x {
+                    if let Some(s) = &o.sig { sigs.insert(s.clone()); }
+                }
+            }
+        }
         if let Op::Dmg(Damage::ArtSet(_, b)) = &op { contents.insert(b.clone()); }
+        let stream = match &op {
+            Op::Conc { upd, .. } => match upd.as_ref() { Op::Update { dl: Some(c), .. } => Some(decompressed_prefix(c)), _ => None },
+            _ => stream,
+        };
         lines.push(format!("O {}", render_op(&op, stream.as_deref())));
         journal_op(lines.last().unwrap());
-        let ret = runner.exec(&op);
+        let ret = if let Op::Conc { upd, bops, sched } = &op {
+            for (who, rets, o) in runner.exec_conc(upd, bops, sched) {
+                if let Some((arts, _)) = &o.pd {
+                    for (_, a) in arts { if let Art::File(b) = a { contents.insert(b.clone()); } }
+                }
+                lines.push(format!("G who={} rets={} {}", who, join_with("+", &rets), render_obs(&o)));
+            }
+            "u".to_string()
+        } else {
+            runner.exec(&op)
+        };
         let obs = runner.observe(ret.clone());
         if let Some((arts, _)) = &obs.pd {
             for (_, a) in arts { if let Art::File(b) = a { contents.insert(b.clone()); } }
